@@ -1,5 +1,6 @@
 """C13 — hyper values: decode and encode are mutually inverse and side-effect free."""
 import itertools
+import json
 import random
 
 import pyglove as pg
@@ -18,11 +19,55 @@ RULE = ('an object template nesting oneof / manyof (every distinct x sorted mode
         'different, materialize with the dict view agrees. Non-trivial: a conditional placeholder or a manyof with k>=2')
 ASSUMPTIONS = [
     'constants are unique strings / distinct ints and sibling float placeholders have disjoint ranges, so encode is invertible',
-    'custom and evolvable placeholders are not generated (user-code decode/encode)',
+    'custom placeholders are one user class (comma separated ints, strict encode); evolvable placeholders hold one fixed '
+    'initial value; encode is not compared when an evolvable (whose encode accepts every value) is a candidate',
 ]
 BUDGET = {'quick': 1600, 'thorough': 50000}
 
 KINDS = ['oneof', 'manyof', 'float']
+WHERE = (None, 'oneof', 'manyof', 'float', 'custom', 'evolve', 'all', 'nofloat')
+
+
+class IntSeq(pg.hyper.CustomHyper):
+  """A user-defined placeholder: comma separated integers."""
+
+  # `hints` holds an offset that makes the values of sibling placeholders disjoint (distinguishable candidates)
+
+  def custom_decode(self, dna):
+    return [int(x) + 100 * self.hints for x in dna.value.split(',')]
+
+  def custom_encode(self, value):
+    lo = 100 * self.hints
+    if not isinstance(value, list) or not value or any(
+        isinstance(x, bool) or not isinstance(x, int) or not lo <= x < lo + 100 for x in value):
+      raise ValueError('not a list of ints of this placeholder: %r' % (value,))
+    return pg.DNA(','.join(str(x - lo) for x in value))
+
+  def next_dna(self, dna=None):
+    if dna is None:
+      return pg.DNA('0')
+    n = len(dna.value.split(','))
+    if n == 3:
+      return None
+    return pg.DNA(','.join(str(i) for i in range(n + 1)))
+
+  def random_dna(self, random_generator=None, previous_dna=None):
+    r = random_generator or random
+    return pg.DNA(','.join(str(r.randint(0, 9)) for _ in range(r.randint(1, 3))))
+
+
+def evolve_transform(location, value, parent):
+  del location, parent
+  return value + 1 if isinstance(value, int) and not isinstance(value, bool) else value
+
+
+def selected(h, where):
+  """Does the filter `where` select a placeholder of kind h?"""
+  if where in (None, 'all'):
+    return True
+  if where == 'nofloat':
+    return h != 'float'
+  return h == where
 
 
 def strategy(tier):
@@ -35,6 +80,7 @@ def strategy(tier):
         st.builds(lambda k, v, d, s: {'h': 'manyof', 'k': min(k, len(v)) if d else k, 'c': v, 'distinct': d, 'sorted': s},
                   st.integers(1, 3), cands, st.booleans(), st.booleans()),
         st.just({'h': 'float'}),
+        st.sampled_from([{'h': 'float'}, {'h': 'custom'}, {'h': 'custom'}, {'h': 'evolve'}]),
         st.builds(lambda h, near, n, k: {'h': h, 'near': near, 'n': n, 'k': k, 'distinct': True, 'sorted': False},
                   st.sampled_from(['oneof', 'manyof']), st.sampled_from(['lists', 'dicts', 'nested']), st.integers(2, 3), st.integers(1, 2)),
         st.lists(c, min_size=1, max_size=3).map(lambda v: {'L': v}),
@@ -52,7 +98,7 @@ def strategy(tier):
   tmpl = st.recursive(const, ext, max_leaves=7)
   return st.fixed_dictionaries({
       'tmpl': st.one_of(tmpl.map(lambda t: {'L': [t]}), tmpl.map(lambda t: {'D': [['r', t]]})),
-      'where': st.sampled_from([None, None, None, 'oneof', 'manyof', 'float']),
+      'where': st.sampled_from([None, None, None, None, 'oneof', 'manyof', 'float', 'custom', 'evolve', 'all', 'nofloat', 'nofloat']),
       'seeds': st.lists(st.integers(0, 10 ** 6), min_size=1, max_size=3),
       # hand the template over as a plain dict / list instead of a pg.Dict / pg.List
       'plain_root': st.sampled_from([False, False, False, True]),
@@ -71,6 +117,11 @@ def annotate(d, ctx=None):
     raise core.InvalidCase(d)
   if 'h' in d:
     h = d['h']
+    if h == 'custom':
+      ctx['n'] += 1
+      return {'h': h, 'off': ctx['n']}
+    if h == 'evolve':
+      return {'h': h}
     if h == 'float':
       if 'lo' in d:
         lo, hi = d.get('lo'), d.get('hi')
@@ -149,6 +200,10 @@ def build(a):
   if 'h' in a:
     if a['h'] == 'float':
       return pg.floatv(a['lo'], a['hi'])
+    if a['h'] == 'custom':
+      return IntSeq(hints=a['off'])
+    if a['h'] == 'evolve':
+      return pg.evolve(pg.Dict(x=1, y=[2, 3]), evolve_transform)
     cands = [build(x) for x in a['c']]
     if a['h'] == 'oneof':
       return pg.oneof(cands)
@@ -168,7 +223,7 @@ def ref_decode(a, nums, where):
     return a['const']
   if 'h' in a:
     h = a['h']
-    if where is not None and where != h:
+    if not selected(h, where):
       # filtered out: the placeholder stays in place as an ordinary object; selected
       # placeholders nested in its candidates are still decision points (in order)
       for x in a.get('c', []):
@@ -176,6 +231,10 @@ def ref_decode(a, nums, where):
       return ('placeholder', h)
     if h == 'float':
       return nums.pop(0)
+    if h == 'custom':
+      return [int(x) + 100 * a['off'] for x in nums.pop(0).split(',')]
+    if h == 'evolve':
+      return json.loads(nums.pop(0))
     k = 1 if h == 'oneof' else a['k']
     outs = []
     for _ in range(k):
@@ -202,11 +261,22 @@ def _bad_binding(d):
   return False
 
 
+def _evolve_as_candidate(a, inside):
+  if not isinstance(a, dict):
+    return False
+  if 'h' in a:
+    if a['h'] == 'evolve' and inside:
+      return True
+    return any(_evolve_as_candidate(x, True) for x in a.get('c', []))
+  subs = a.get('L', []) + [kv[1] for kv in a.get('D', [])] + list(a.get('a', {}).values() if 'O' in a else [])
+  return any(_evolve_as_candidate(x, inside) for x in subs)
+
+
 def _unselected_inside_selected(a, where, inside):
   if not isinstance(a, dict):
     return False
   if 'h' in a:
-    sel = a['h'] == where
+    sel = selected(a['h'], where)
     if inside and not sel:
       return True
     return any(_unselected_inside_selected(x, where, inside or sel) for x in a.get('c', []))
@@ -216,7 +286,8 @@ def _unselected_inside_selected(a, where, inside):
 
 def plain(v):
   if isinstance(v, pg.hyper.HyperPrimitive):
-    kind = {'OneOf': 'oneof', 'ManyOf': 'manyof', 'Float': 'float'}.get(type(v).__name__, type(v).__name__)
+    kind = {'OneOf': 'oneof', 'ManyOf': 'manyof', 'Float': 'float', 'IntSeq': 'custom',
+            'Evolvable': 'evolve'}.get(type(v).__name__, type(v).__name__)
     return ('placeholder', kind)
   if isinstance(v, pg.Object):
     name = type(v).__name__
@@ -286,7 +357,7 @@ def execute(case):
     raise core.InvalidCase(case)
   d = case['tmpl']
   where_kind = case.get('where')
-  if where_kind not in (None, 'oneof', 'manyof', 'float'):
+  if where_kind not in WHERE:
     raise core.InvalidCase(case)
   try:
     annot = annotate(d)
@@ -311,9 +382,15 @@ def execute(case):
   res.label('where:%s' % where_kind, 'multi' if multi else 'single', 'conditional' if cond else 'flat')
   where_fn = None
   if where_kind is not None:
-    cls = {'oneof': pg.hyper.OneOf, 'manyof': pg.hyper.ManyOf, 'float': pg.hyper.Float}[where_kind]
-    # OneOf is a subclass of ManyOf: select by exact class
-    where_fn = lambda x, cls=cls: type(x) is cls   # pylint: disable=unnecessary-lambda-assignment
+    if where_kind == 'all':
+      where_fn = lambda x: True   # pylint: disable=unnecessary-lambda-assignment
+    elif where_kind == 'nofloat':
+      where_fn = lambda x: not isinstance(x, pg.hyper.Float)   # pylint: disable=unnecessary-lambda-assignment
+    else:
+      cls = {'oneof': pg.hyper.OneOf, 'manyof': pg.hyper.ManyOf, 'float': pg.hyper.Float, 'custom': IntSeq,
+             'evolve': pg.hyper.Evolvable}[where_kind]
+      # OneOf is a subclass of ManyOf: select by exact class
+      where_fn = lambda x, cls=cls: type(x) is cls   # pylint: disable=unnecessary-lambda-assignment
   sig = {'where': str(where_kind)}
   if where_kind is not None and _unselected_inside_selected(annot, where_kind, False):
     sig['unselected_inside_selected'] = '1'
@@ -344,6 +421,12 @@ def execute(case):
       dnas.append(pg.random_dna(spec, random.Random(sd)))
   if not dnas and size != 0:
     dnas = [spec.first_dna()]
+  # an evolvable's encode accepts every value: as a candidate it is not distinguishable from its siblings
+  evolve_candidate = _evolve_as_candidate(annot, False)
+  if evolve_candidate:
+    res.label('evolvable-candidate')
+  if '"custom"' in json.dumps(d) or '"evolve"' in json.dumps(d):
+    res.label('custom-placeholder')
   for dna in dnas:
     nums = list(dna.to_numbers())
     what = 'dna=%r template=%r' % (nums, value)
@@ -362,12 +445,12 @@ def execute(case):
     got = plain(out)
     if got != exp:
       return res.violate('decode gives %r, reference substitution gives %r; %s' % (got, exp, what), law='decode-shape', **sig)
-    if where_kind is None and not pg.is_deterministic(out):
+    if where_kind in (None, 'all') and not pg.is_deterministic(out):
       return res.violate('decoded value still contains placeholders: %r; %s' % (out, what), law='decode-not-deterministic', **sig)
     if pg.to_json_str(value) != before:
       return res.violate('decode modified the template; %s' % what, law='template-mutated', by='decode', **sig)
     try:
-      enc = t.encode(out)
+      enc = dna if evolve_candidate else t.encode(out)
     except RecursionError:
       raise
     except Exception as e:   # pylint: disable=broad-except
@@ -379,7 +462,7 @@ def execute(case):
     out2 = t.decode(dna)
     if not pg.eq(out, out2):
       return res.violate('two decodes of the same DNA differ; %s' % what, law='decode-not-repeatable', **sig)
-    if where_kind is None and isinstance(out, pg.Symbolic) and (
+    if where_kind in (None, 'all') and isinstance(out, pg.Symbolic) and (
         _sym_ids(out) & _sym_ids(out2) or _sym_ids(out) & _sym_ids(value)):
       return res.violate('decoded values share symbolic nodes (with each other or the template); %s' % what,
                          law='decode-shares-nodes', **sig)
